@@ -2,7 +2,7 @@
    Statements only; proofs in NsfixModel.v over the model NsfixDefs.v (+ GenNsfix.v, regenerated
    from /repo on every run).  What is and is not proved is said in props/C14.claim.json. *)
 From Coq Require Import List NArith.
-Require Import XV.GenNsfix XV.NsfixDefs XV.NsfixModel.
+Require Import XV.GenNsfix XV.NsfixDefs XV.NsfixModel XV.NsfixStep.
 Import ListNotations.
 Local Open Scope N_scope.
 
@@ -44,6 +44,32 @@ Theorem declared_default_resolves : forall s u, stk s <> [] -> u <> 0 ->
   ns_for_prefix (stk (declare_default s u)) None = Some u.
 Proof. exact declare_default_resolves. Qed.
 Print Assumptions declared_default_resolves.
+
+(* ---- xsl:attribute with a namespace attribute, one instruction, every engine state ---- *)
+
+(* result_ns_wellformed_partial, attribute clause: in any state with a pending element, if the
+   instruction raises none of the hazards (exact decidable guard: the hazard list is unchanged;
+   here that excludes a shadowed prefix (KN1) and a duplicate expanded name (K17)), the attribute
+   it leaves in the pending list has the requested local name and a prefix that the
+   result-namespace stack resolves to exactly the requested URI — whether that prefix was found
+   in scope, supplied by the name, or invented *)
+Theorem result_ns_attribute_step_partial : forall s P L u sns v,
+  pend s <> None -> stk s <> [] -> u <> 0 -> u <> uXMLNS ->
+  match P with None => True | Some a => plain_atom a = true end ->
+  hz (exec_attr s (P, L) (Some u) sns v) = hz s ->
+  exists q, In (mkAttr (Some q, L) v (u, L)) (pattrs (exec_attr s (P, L) (Some u) sns v))
+            /\ ns_for_prefix (stk (exec_attr s (P, L) (Some u) sns v)) (Some q) = Some u.
+Proof. exact attr_namespace_step. Qed.
+Print Assumptions result_ns_attribute_step_partial.
+
+(* the hypotheses are satisfiable: a pending <p:e xmlns:p="u4"> and name="p:a" namespace="u5"
+   (p is bound to another URI and in use, so a prefix is invented) *)
+Example attribute_step_nonvacuous :
+  let s := run [OLre (Some (U 1), U 2) [(Some (U 1), 4)] [] []] in
+  pend s <> None /\ stk s <> [] /\
+  hz (exec_attr s (Some (U 1), U 3) (Some 5) None 1) = hz s /\
+  In (mkAttr (Some (AGen 0), U 3) 1 (5, U 3)) (pattrs (exec_attr s (Some (U 1), U 3) (Some 5) None 1)).
+Proof. vm_compute. repeat split; try discriminate. right. right. left. reflexivity. Qed.
 
 (* ---- the compile-time clauses (exclude-result-prefixes) for literal result elements ---- *)
 
